@@ -249,7 +249,15 @@ fn scenario(ctxrc: SharedCtx, report: Rc<RefCell<Report>>) {
         let packing = match ctx.choose("packing", 4) { 0 => Packing::OnePerRecord, 1 => Packing::Coalesce, 2 => Packing::Split, _ => Packing::Mixed };
         let n = if ctx.chance("many_pdus", 1, 4) { 20 + ctx.choose("n_pdus_many", 41) as usize } else { 1 + ctx.choose("n_pdus", 30) as usize };
         let mut pdus = Vec::new();
-        for _ in 0..n {
+        let sized_at = if ctx.chance("one_sized_pdu", 1, 6) { Some(ctx.choose("sized_at", n as u64) as usize) } else { None };
+        for k in 0..n {
+            if sized_at == Some(k) {
+                // a PDU whose body is an exact multiple of a common block size (or next to one)
+                let body = *ctx.pick("sized_body", &[16384usize, 16383, 16385, 8192, 4096]);
+                let (u, r) = simcore::scen::c10::sized_bitmap_pdu(&mut ctx, body);
+                pdus.push((u, r, true));
+                continue;
+            }
             let (u, r) = simcore::scen::c10::gen_fastpath_pdu(&mut ctx, 300, true);
             let long = ctx.chance("fp_long", 1, 4);
             pdus.push((u, r, long));
